@@ -77,6 +77,7 @@ func findFSMTables(c *Ctx) []fsmTable {
 func C16(c *Ctx) {
 	r := c.R
 	r.Rule("R16.1", "gating: in checkIBTP a request from a local source is accepted only across the no-error edge of checkSourceAvailability; the target's availability error becomes the isFailed flag of beginTransaction; checkServiceAvailability accepts only an existing service whose IsAvailable() is true; checkTargetAvailability accepts a local destination only across getServiceByID ok, IsAvailable() true and CheckPermission(source) true.")
+	r.Rule("R16.10", "no operation on an object that is being logged out: the pre-check tables of the repository's governance objects (roleStateMap, dappStateMap, strategyStateMap: operation -> statuses from which it may be submitted) admit no operation from logouting or forbidden. All operations share the FSM events approve / reject; an operation accepted while a logout proposal is open moves the object to its own pending status, the logout's approval is then taken for that operation's approval and ends in available instead of forbidden.")
 	r.Rule("R16.2", "lifecycle tables: every governance FSM literal (role, dapp, proposal strategy in the repository; appchain, service, rule, node in the pinned bitxhub-core) has no transition whose source is GovernanceForbidden, dynamic destinations only on reject, an approved logout ends in forbidden, and no transition takes a forbidden object to anything but forbidden/unavailable (pre-check tables wider than the FSM are reported as information).")
 	r.Rule("R16.4", "cascade: in AppchainManager.Manage, on the approved branch, event freeze reaches the cross-invoke PauseChainService, activate reaches UnPauseChainService, logout reaches ClearChainService and ClearRule before any successful return, each with its result tested; the per-service loops of the service manager call the per-service operation on every iteration.")
 	r.Rule("R16.5", "service cache coherence: the executor's service cache (consulted before ledger state) is fed from SERVICE events only across a receipt-success edge; each event caches a record allocated in its own loop iteration; rollbackBlocks resets it on every path that rolled the ledger back; every service-manager entry that changes a service's status posts the SERVICE event before returning success.")
@@ -237,6 +238,7 @@ func C16(c *Ctx) {
 	ev := &core.Evaluator{P: c.P}
 	tabs := findFSMTables(c)
 	nGov := 0
+	nPre := 0
 	for _, t := range tabs {
 		// governance FSMs only: those mentioning the status "forbidden" or "available"
 		isGov := false
@@ -324,6 +326,45 @@ func C16(c *Ctx) {
 		}
 	}
 	r.Floor("R16.2", "governance FSM tables", nGov, 6)
+	// ---- R16.10: nothing is submitted on an object whose logout is pending or done (once per table)
+	seenTab := map[string]bool{}
+	for _, t := range tabs {
+		if !strings.HasPrefix(t.pkg.PkgPath, core.Module+"/") {
+			continue
+		}
+		for _, vn := range core.PackageVarsWithSuffix(t.pkg, "StateMap") {
+			if seenTab[t.pkg.PkgPath+"."+vn] {
+				continue
+			}
+			seenTab[t.pkg.PkgPath+"."+vn] = true
+			pre, ok := ev.MapOfLists(t.pkg, vn)
+			if !ok {
+				r.Unknown("R16.10", core.Short(t.pkg.PkgPath)+"."+vn, "", "the pre-check table could not be evaluated from its literal")
+				continue
+			}
+			nPre++
+			vpos := ""
+			if o := t.pkg.Types.Scope().Lookup(vn); o != nil {
+				vpos = c.P.Pos(o.Pos())
+			}
+			var evs []string
+			for e := range pre {
+				evs = append(evs, e)
+			}
+			sort.Strings(evs)
+			badPre := ""
+			for _, e := range evs {
+				for _, st := range pre[e] {
+					if st == "logouting" || st == "forbidden" {
+						badPre += fmt.Sprintf(" %s admits %s;", e, st)
+					}
+				}
+			}
+			r.Check(badPre == "", "R16.10", core.Short(t.pkg.PkgPath)+"."+vn+" admits no operation on a logouting / forbidden object", vpos, fmt.Sprintf("%d operations, none admitted from logouting or forbidden", len(evs)),
+				"the pre-check table lets an operation be submitted on an object whose logout is being voted (or that is logged out):"+badPre+" the object moves to that operation's pending status while the logout proposal stays open, and the approval of the logout is then consumed as the approval of the other operation (<pending> --approve--> available): the logged-out object is usable again")
+		}
+	}
+	r.Floor("R16.10", "pre-check tables of the repository's own governance objects", nPre, 2)
 
 	// ---- R16.4
 	if am := c.fn("R16.4", "internal/executor/contracts.(*AppchainManager).Manage"); am != nil {
